@@ -3,7 +3,7 @@
 //! paired <job.json> <out.ndjson>
 //!   job  = {"jobs":[{"cfg":text,"files":{name:content},"tag":any,"params":{..},"cases":[case..]}]}
 //!   case = {"hist":[step..],            history (harness script steps: ["d"|"u"|"r"|"p"|"w",code] ["t",n] ["fk",y,op])
-//!           "points":"end"|"first"|"firstlast",   where the history is cut:
+//!           "points":"end"|"first"|"firstlast"|"none",   where the history is cut:
 //!                 end       = after the last step (must be a tick),
 //!                 first     = after every tick at which the real can_block_update_idle_waiting turned true,
 //!                 firstlast = those, and the last tick of every blocked stretch (just before the next input)
@@ -182,13 +182,15 @@ struct Scan {
     flags: Vec<Option<(bool, bool)>>,
     /// OS keys down after every atomic step
     down: Vec<Vec<String>>,
+    /// layout.oneshot.pause_input_processing_ticks (the rapid-event pause) after every atomic step
+    osp: Vec<u16>,
     /// the scan ended early (panic / error of the code under test) after this many steps
     done: usize,
     problem: Option<Value>,
 }
 
 fn scan(names: &KeyNames, cfg: &str, files: &[(String, String)], hist: &[Step]) -> Scan {
-    let mut sc = Scan { flags: vec![], down: vec![], done: 0, problem: None };
+    let mut sc = Scan { flags: vec![], down: vec![], osp: vec![], done: 0, problem: None };
     let r = std::panic::catch_unwind(std::panic::AssertUnwindSafe(|| -> Result<(), String> {
         let mut sim = Sim::new(cfg, files)?;
         let mut down: Vec<String> = vec![];
@@ -215,6 +217,7 @@ fn scan(names: &KeyNames, cfg: &str, files: &[(String, String)], hist: &[Step]) 
             lane.recs.clear();
             sc.flags.push(fl);
             sc.down.push(down.clone());
+            sc.osp.push(sim.k.layout.b().oneshot.pause_input_processing_ticks);
             sc.done += 1;
         }
         Ok(())
@@ -268,6 +271,7 @@ fn cmd_paired_inner(args: &[String]) -> Result<(), String> {
                         cuts.push(hist.len());
                     }
                 }
+                "none" => {}
                 _ => {
                     for i in 1..=sc.done {
                         if !cb_at(i) {
@@ -339,7 +343,7 @@ fn cmd_paired_inner(args: &[String]) -> Result<(), String> {
                     for &k in &ks {
                         let (gap, lane_a) = run(k);
                         writeln!(w, "{}", json!({"e":"pair","job":tag,"case":ci,"cut":cut,"K":k,"cont":cname,"mode":"gap",
-                            "down":sc.down[cut - 1],"gap":gap,"A":lane_a,"B":lane_b})).map_err(|e| e.to_string())?;
+                            "down":sc.down[cut - 1],"osp":sc.osp[cut - 1],"gap":gap,"A":lane_a,"B":lane_b})).map_err(|e| e.to_string())?;
                     }
                 }
             }
@@ -371,7 +375,7 @@ fn cmd_paired_inner(args: &[String]) -> Result<(), String> {
                     Ok(())
                 });
                 writeln!(w, "{}", json!({"e":"pair","job":tag,"case":ci,"cut":0,"K":0,"cont":"all","mode":"block",
-                    "down":[],"gap":[],"A":la.take(),"B":lb.take()})).map_err(|e| e.to_string())?;
+                    "down":[],"osp":0,"gap":[],"A":la.take(),"B":lb.take()})).map_err(|e| e.to_string())?;
             }
         }
     }
